@@ -24,11 +24,13 @@ func (node *HusbandNode) Individual() *IndividualNode {
 
 	n := node.family.document.NodeByPointer(valueToPointer(node.value))
 
-	if IsNil(n) {
-		return nil
+	// The pointer may lead nowhere, or to something that is not an individual
+	// (such as a family).
+	if individual, ok := n.(*IndividualNode); ok {
+		return individual
 	}
 
-	return n.(*IndividualNode)
+	return nil
 }
 
 func (node *HusbandNode) Similarity(other *HusbandNode, options SimilarityOptions) float64 {
